@@ -12,13 +12,13 @@ open OptProofs Opt
 theorem kd_setKd (n : Node) (t : OTy) : (setKd n t).kd = t.kind := by
   cases n <;> rfl
 
-theorem orFail_good_inv {r : Rule} {loc : Loc} {st : CState} (h : Good (orFail r loc st).2) :
+theorem orFail_good_inv {r : Rule} {loc : Loc} {st : CState} (h : CkGood (orFail r loc st).2) :
     ∃ t, r = .ok t ∧ orFail r loc st = (t, st) := by
   cases r with
   | ok t => exact ⟨t, rfl, rfl⟩
   | error c => exact absurd h (fail_not_good st loc c)
 
-theorem good_before (cfg : CheckCfg) (n : Node) (st : CState) (h : Good (visit cfg n st).2.2) : Good st :=
+theorem good_before (cfg : CheckCfg) (n : Node) (st : CState) (h : CkGood (visit cfg n st).2.2) : CkGood st :=
   Classical.byContradiction fun hb => (visit_spec cfg n st).2.1 hb h
 
 /-- the integer literals on the arithmetic spine of the node (through unary `+ -` and `+ - * /`: what
@@ -31,7 +31,7 @@ def spineOK : Node → Bool
 
 /-- what `visit` guarantees about annotations on a node -/
 def WSpec (cfg : CheckCfg) (n : Node) : Prop :=
-  ∀ st : CState, wa n = true → Good (visit cfg n st).2.2 →
+  ∀ st : CState, wa n = true → CkGood (visit cfg n st).2.2 →
     wa (visit cfg n st).1 = true ∧ (visit cfg n st).1.kd = (visit cfg n st).2.1.kind ∧ spineOK (visit cfg n st).1 = true
 
 theorem leaf_wa (cfg : CheckCfg) (n : Node) (τ : OTy) (hv : ∀ st, visit cfg n st = (setKd n τ, τ, st))
@@ -151,7 +151,7 @@ theorem arith_result_kind (dt : TDefects) (op : String) (lt rt T : OTy)
     · cases h
 
 
-theorem good_orFail {r : Rule} {loc : Loc} {st : CState} (h : Good (orFail r loc st).2) : Good st := by
+theorem good_orFail {r : Rule} {loc : Loc} {st : CState} (h : CkGood (orFail r loc st).2) : CkGood st := by
   obtain ⟨t, _, e⟩ := orFail_good_inv h
   rw [e] at h; exact h
 
@@ -171,7 +171,7 @@ theorem binary_wa (cfg : CheckCfg) (m : Meta) (op : String) (l r : Node) (ihl : 
   obtain ⟨T, hT, hof⟩ := orFail_good_inv hg
   rw [hof] at hg ⊢
   dsimp only at hg ⊢
-  have g1 : Good st1 := good_before cfg r st1 (by rw [hr]; exact hg)
+  have g1 : CkGood st1 := good_before cfg r st1 (by rw [hr]; exact hg)
   obtain ⟨wl, kl, sl⟩ := i1 g1
   obtain ⟨wr, kr, sr⟩ := i2 hg
   refine ⟨?_, kd_setKd _ _, by simp only [setKd, Node.withMeta, spineOK, sl, sr, Bool.and_self, Bool.or_true]⟩
@@ -205,7 +205,7 @@ theorem wa_setKd_matches (m : Meta) (h : Bool) (l r : Node) (t : OTy) :
 
 theorem two_wa (cfg : CheckCfg) (l r : Node) (ihl : WSpec cfg l) (ihr : WSpec cfg r) (st : CState)
     (hi : wa l = true ∧ wa r = true)
-    (hg : Good (visit cfg r (visit cfg l st).2.2).2.2) :
+    (hg : CkGood (visit cfg r (visit cfg l st).2.2).2.2) :
     wa (visit cfg l st).1 = true ∧ wa (visit cfg r (visit cfg l st).2.2).1 = true := by
   have g1 := good_before cfg r _ hg
   exact ⟨(ihl st hi.1 g1).1, (ihr _ hi.2 hg).1⟩
@@ -370,24 +370,24 @@ theorem stfi_wa (k : RKind) (hk : plainKd k = true → k = .num .int) :
 /-! ### the helper traversals -/
 
 def LW (cfg : CheckCfg) (ns : List Node) : Prop :=
-  ∀ st : CState, waList ns = true → Good (visitList cfg ns st).2 → waList (visitList cfg ns st).1 = true
+  ∀ st : CState, waList ns = true → CkGood (visitList cfg ns st).2 → waList (visitList cfg ns st).1 = true
 
 def BW (cfg : CheckCfg) (b : Option Node) : Prop :=
-  ∀ st : CState, waOpt b = true → Good (visitBound cfg b st).2.2 → waOpt (visitBound cfg b st).1 = true
+  ∀ st : CState, waOpt b = true → CkGood (visitBound cfg b st).2.2 → waOpt (visitBound cfg b st).1 = true
 
 def AW (cfg : CheckCfg) (ins : List Ty) (variadic : Bool) (numIn offset : Nat) (args : List Node) : Prop :=
   ∀ (i : Nat) (st : CState), waList args = true →
-    Good (checkArgs cfg ins variadic numIn offset i args st).2.2 →
+    CkGood (checkArgs cfg ins variadic numIn offset i args st).2.2 →
     waList (checkArgs cfg ins variadic numIn offset i args st).1 = true
 
-theorem list_good_before (cfg : CheckCfg) (ns : List Node) (st : CState) (h : Good (visitList cfg ns st).2) : Good st :=
+theorem list_good_before (cfg : CheckCfg) (ns : List Node) (st : CState) (h : CkGood (visitList cfg ns st).2) : CkGood st :=
   Classical.byContradiction fun hb => (list_spec cfg ns st).2.1 hb h
 
-theorem bound_good_before (cfg : CheckCfg) (b : Option Node) (st : CState) (h : Good (visitBound cfg b st).2.2) : Good st :=
+theorem bound_good_before (cfg : CheckCfg) (b : Option Node) (st : CState) (h : CkGood (visitBound cfg b st).2.2) : CkGood st :=
   Classical.byContradiction fun hb => (bound_spec cfg b st).2.1 hb h
 
 theorem args_good_before (cfg : CheckCfg) (ins : List Ty) (v : Bool) (numIn off i : Nat) (args : List Node) (st : CState)
-    (h : Good (checkArgs cfg ins v numIn off i args st).2.2) : Good st :=
+    (h : CkGood (checkArgs cfg ins v numIn off i args st).2.2) : CkGood st :=
   Classical.byContradiction fun hb => (args_spec cfg ins v numIn off args i st).2.1 hb h
 
 theorem lw_nil (cfg : CheckCfg) : LW cfg [] := by
@@ -519,7 +519,7 @@ theorem slice_wa (cfg : CheckCfg) (m : Meta) (x : Node) (f t : Option Node) (ihx
       exfalso
       simp only [Bool.not_false, if_true] at hg
       have := (bound_spec cfg f st1).2
-      by_cases hg1 : Good st1
+      by_cases hg1 : CkGood st1
       · have h3 := this.2 hg1
         rw [hf] at h3
         split at h3
@@ -534,11 +534,11 @@ theorem slice_wa (cfg : CheckCfg) (m : Meta) (x : Node) (f t : Option Node) (ihx
       have i3 := iht st2 hi.2
       rw [ht] at hg i3
       dsimp only at hg i3 ⊢
-      have g3 : Good st3 := by
+      have g3 : CkGood st3 := by
         split at hg <;> exact hg
-      have g2 : Good st2 := by
+      have g2 : CkGood st2 := by
         have := bound_good_before cfg t st2 (by rw [ht]; exact g3); exact this
-      have g1 : Good st1 := by
+      have g1 : CkGood st1 := by
         have := bound_good_before cfg f st1 (by rw [hf]; exact g2); exact this
       split <;>
         (dsimp only
@@ -587,9 +587,9 @@ theorem builtin_wa (cfg : CheckCfg) (m : Meta) (name : String) (args : List Node
       · rename_i hc
         simp only [hc, Bool.false_eq_true, if_false] at hg
         have g3 := good_orFail hg
-        have g2 : Good (visit cfg cl { st1 with colls := coll :: st1.colls }).2.2 := g3
+        have g2 : CkGood (visit cfg cl { st1 with colls := coll :: st1.colls }).2.2 := g3
         have g1' := good_before cfg cl _ g2
-        have g1 : Good st1 := g1'
+        have g1 : CkGood st1 := g1'
         have i2 := ih.2.1 { st1 with colls := coll :: st1.colls } hi.2 g2
         dsimp only
         exact ⟨by simp only [setKd, Node.withMeta, wa, waList, Bool.and_true, (i1 g1).1, i2.1, Bool.and_self],
@@ -703,7 +703,7 @@ theorem check_wellAnnotated (cfg : CheckCfg) (hd : cfg.dt.retypeAnyParam = false
   rcases hv : visit cfg n {} with ⟨m, τ, st⟩
   rw [hv] at h
   dsimp only at h
-  have key : Good st → wa m = true := by
+  have key : CkGood st → wa m = true := by
     intro hg
     have := visit_wa cfg hd n {} hw (by rw [hv]; exact hg)
     rw [hv] at this; exact this.1
